@@ -22,9 +22,9 @@ TWO = ('EAStorySwap', 'EAItemSwap')
 ONE = ('roStoryMove', 'roStorySend')
 
 
-def mk(op, k, tk, pretty, T=60, repeats=False, long_body=False, post_merge=False, carried_timing=None):
+def mk(op, k, tk, pretty, T=60, repeats=False, long_body=False, post_merge=False, carried_timing=None, empty_body=False):
     level, has_t, has_src, has_new = OPS[op]
-    P = {'op': op, 'k': k, 'tk': tk, 'pretty': pretty, 'long_body': long_body, 'post_merge': post_merge, 'carried_timing': carried_timing}
+    P = {'op': op, 'k': k, 'tk': tk, 'pretty': pretty, 'long_body': long_body, 'post_merge': post_merge, 'carried_timing': carried_timing, 'empty_body': empty_body}
     sym = [('u%d' % j, 'str') for j in range(k)]
     strs = [n for n, _ in sym]
     free = []
@@ -41,7 +41,7 @@ def mk(op, k, tk, pretty, T=60, repeats=False, long_body=False, post_merge=False
     pre = str_pre(strs + free + ['c0', 'c1']) + distinct(strs)
     cid = 'C20/%s/k%d%s/%s%s' % (op, k, ('/t-' + tk) if has_t else '', 'indented' if pretty else 'compact',
                                  '/ids-may-repeat' if repeats else '') + ('/long-body' if long_body else '') + \
-        ('/after-merge-and-edits' if post_merge else '') + ('/carried-timing-' + carried_timing if carried_timing else '')
+        ('/after-merge-and-edits' if post_merge else '') + ('/carried-timing-' + carried_timing if carried_timing else '') + ('/empty-storyBody' if empty_body else '')
     return Cell(pid=PID, cid=cid, harness='h_msgacc:msgacc_cell', params=P, sym=sym, pre=pre, stubs=('hash',),
                 timeout=T, cost=k)
 
@@ -69,6 +69,8 @@ def cells(tier):
     for op in ('roStoryAppend', 'roStoryInsert', 'roStoryReplace', 'EAStoryInsert', 'EAStoryReplace'):
         for ct in ('none', 'blank', 'odd'):
             out.append(mk(op, 2, 'present' if OPS[op][1] else None, False, T=T, carried_timing=ct))
+    out.append(mk('roStorySend', 1, None, False, T=T, empty_body=True))
+    out.append(mk('roStorySend', 1, None, True, T=T, empty_body=True))
     out.append(mk('roStorySend', 1, None, False, T=T, long_body=True))
     out.append(mk('roStorySend', 1, None, True, T=T, long_body=True))
     out.append(mk('roStorySend', 1, None, False, T=T, long_body=True, post_merge=True))
@@ -79,4 +81,8 @@ def cells(tier):
             out.append(Cell(pid=PID, cid='C20/%s/%s' % (op, 'indented' if pretty else 'compact'),
                             harness='h_msgacc:other_cell', params={'op': op, 'pretty': pretty}, sym=sym, pre=pre,
                             stubs=('hash',), timeout=T, cost=1))
+            if op in ('roReplace', 'roCreate') and not pretty:
+                out.append(Cell(pid=PID, cid='C20/%s/compact/first-story-untimed' % op,
+                                harness='h_msgacc:other_cell', params={'op': op, 'pretty': pretty, 'untimed_first': True},
+                                sym=sym, pre=pre, stubs=('hash',), timeout=T, cost=1))
     return out
